@@ -13,7 +13,7 @@ s = open(p).read()
 assert s.count(old) >= 1, 'pattern not found'
 open(p, 'w').write(s.replace(old, new, 1))
 PY
-  out=$(cd $HERE && VERIF_REPO=$d ./check C02 2>&1 | grep -v KNOWN-FINDING); rc=$?
+  out=$(cd $HERE && VERIF_REPO=$d VERIF_EVIDENCE_DIR=$d/evidence VERIF_REPLAY_DIR=$d/replays ./check C02 2>&1 | grep -v KNOWN-FINDING); rc=$?
   nv=$(echo "$out" | grep -c '^VIOLATION'); nf=$(echo "$out" | grep '^VIOLATION' | grep -vc 'no-failing-input-found')
   echo "$name: expect=$expect violations=$nv with-failing-input=$nf :: $(echo "$out" | tail -1)"
   for r in $(echo "$out" | grep '^VIOLATION' | sed 's/.*replay=\([^ ]*\).*/\1/' | head -2); do
@@ -42,6 +42,12 @@ sel m8 && run m8 alarm database/output/bibtex.py "        if lineage:
             s += ', %s' % lineage"
 sel m9 && run m9 alarm database/output/bibyaml.py "fields.update(process_person_roles(entry))" "fields.update((r.lower(), ps) for r, ps in process_person_roles(entry))"
 sel m10 && run m10 alarm database/__init__.py "        return ' '.join(names)" "        return ' '.join(names[:3])"
+sel m11 && run m11 alarm database/output/bibtex.py "        if first or middle:
+            s += ', '" "        if first or middle:
+            s += ', ' if last else ''"
+sel m12 && run m12 alarm database/output/bibyaml.py "fields.update(entry.fields)" "fields.update((k, int(v) if v.isdigit() else v) for k, v in entry.fields.items())"
+sel m13 && run m13 alarm database/output/bibyaml.py "data['preamble'] = bib_data.preamble" "data['preamble'] = bib_data.preamble.strip()"
+sel m14 && run m14 alarm database/input/bibtexml.py "e.fields[field_name] = field_text" "e.fields[field_name] = field_text.strip()"
 sel h1 && run h1 quiet database/output/bibtex.py "        first = person.get_part_as_text('first')
         middle = person.get_part_as_text('middle')
         prelast = person.get_part_as_text('prelast')
